@@ -81,7 +81,7 @@ def searches(tier):
 
 def restrict(a, g):
     out = np.where(np.isin(a, g["labels"]), a, 0).astype(a.dtype)
-    if g["kind"] == "merge":
+    if g["kind"] in ("merge", "merge_single"):
         out = (out != 0).astype(a.dtype)
     return out
 
@@ -94,7 +94,7 @@ def base_cfg(case):
 def reference_result(case, g, pred, ref):
     cfg = base_cfg(case)
     p, r = restrict(pred, g), restrict(ref, g)
-    if g["kind"] == "single" and case["input"] != "MATCHED_INSTANCE":
+    if g["kind"] in ("single", "merge_single") and case["input"] != "MATCHED_INSTANCE":
         cfg = {**cfg, "input": "MATCHED_INSTANCE", "matcher": None, "backend": None}
         if cfg["decision"]:
             cfg["decision"] = [cfg["decision"][0], 0.0]
